@@ -2,6 +2,8 @@ import MosnVerif.Lemmas.Framing
 import MosnVerif.Lemmas.FrameSteps
 import MosnVerif.Lemmas.Match
 import MosnVerif.Lemmas.FrameH2
+import MosnVerif.Lemmas.ReadLoop
+import MosnVerif.Model.ReadLoopSpec
 /-!
 # C07 — message extraction is independent of how TCP segments the byte stream (property theorems only)
 
@@ -12,6 +14,8 @@ computations (Model/FrameSteps.lean); the matchers are Model/Match.lean.
 namespace MosnVerif.Props.C07
 open MosnVerif.Model.FramingS MosnVerif.Model.FrameH2
 open MosnVerif.Model.Framing MosnVerif.Model.FrameSteps MosnVerif.Model.Match MosnVerif.Model.FrameSpec
+open MosnVerif.Model
+open MosnVerif.Model.ReadLoop (Params Ev Consumer Consumer.Drains SafeShrinks appended readsOf toConn dispatchConsumer)
 
 /-- **segmentation_independent** (generic): for every prefix-stable decoder, every byte stream and every way of
 cutting it into consecutive reads (1-byte reads, frames straddling reads, several frames in one read, empty reads),
@@ -194,5 +198,133 @@ def h2Sample : Bytes := (MosnVerif.Gen.FrameConsts.http2_preface.map UInt8.ofNat
 example : ((srun (h2Step 1048576 (fun _ => true) (fun _ => true)) false
     [h2Sample.take 30, h2Sample.drop 30 |>.take 20, h2Sample.drop 50]).out.map (fun o => (o.map List.length))) =
     [none, some 9, some 20] := by decide
+
+/-! ## the connection read loop below `Dispatch` (`pkg/network/connection.go` startReadLoop / doRead / onRead)
+
+`ReadLoop.run P c k evs` is the loop fed with the results `evs` of successive `ReadOnce` calls — reads, read timeouts
+(`types.DefaultConnReadTimeout`), EOF, errors, in any order — over the regenerated `doRead` / `onRead` decisions and
+the regenerated re-allocations of the timeout branch (`Params.actual`), handing the read buffer to the consumer `c`
+(the read filters; `dispatchConsumer d` = `streamConn.Dispatch` = `Framing.feed d`). -/
+
+/-- the timeout branch of the current `startReadLoop` frees / re-allocates the read buffer only when it holds nothing,
+for every default read buffer size -/
+theorem timeout_branch_frees_only_empty (dflt : Int) : SafeShrinks (Params.actual dflt) := by
+  intro sh hsh alloc len cap h
+  simp only [Params.actual, MosnVerif.Gen.ReadLoopConn.timeoutShrinks, List.mem_cons, List.not_mem_nil, or_false] at hsh
+  subst hsh
+  simp only [MosnVerif.Gen.ReadLoopConn.timeoutShrinkCond0, Bool.and_eq_true, decide_eq_true_eq] at h
+  omega
+
+/-- **readloop_preserves_stream**: for every consumer that only drains from the front, every default buffer size and
+every sequence of `ReadOnce` results (chunks of any sizes with read timeouts, EOF and errors anywhere), the bytes the
+consumer has drained, in order, followed by what the read buffer still holds are exactly the bytes `ReadOnce` put into
+the buffer, in order: no byte lost, none duplicated — at every point of the run (the statement holds for every prefix
+of `evs`), so every hand-off shows the consumer exactly the unconsumed rest of the stream. -/
+theorem readloop_preserves_stream {κ : Type} (dflt : Int) (c : Consumer κ) (hd : c.Drains) (k : κ) (evs : List Ev) :
+    (ReadLoop.run (Params.actual dflt) c k evs).consumed ++ (ReadLoop.run (Params.actual dflt) c k evs).buf =
+      (appended evs).flatten := by
+  have := ReadLoop.foldl_stream (Params.actual dflt) (timeout_branch_frees_only_empty dflt) c hd evs (ReadLoop.St.init k)
+  simpa [ReadLoop.run, ReadLoop.St.init, ReadLoop.appendedFrom] using this
+
+/-- … in particular for every chunk list (chunks of at least one byte) with read timeouts inserted anywhere: the stream is
+the concatenation of the chunks. -/
+theorem readloop_preserves_stream_timeouts {κ : Type} (dflt : Int) (c : Consumer κ) (hd : c.Drains) (k : κ)
+    (evs : List Ev) (hp : ∀ e ∈ evs, e.plain = true) :
+    (ReadLoop.run (Params.actual dflt) c k evs).consumed ++ (ReadLoop.run (Params.actual dflt) c k evs).buf =
+      (readsOf evs).flatten := by
+  rw [readloop_preserves_stream dflt c hd k evs, ReadLoop.appended_plain evs hp]
+
+/-- **readloop_refines_dispatch**: with the stream connection behind the filter manager, the read loop is the generic
+dispatch model: frames handed on, residue and failed flag are those of `Framing.run` on the chunks read. -/
+theorem readloop_refines_dispatch {F : Type} (dflt : Int) (d : Bytes → Step F) (hs : Stable d) (evs : List Ev) :
+    toConn (ReadLoop.run (Params.actual dflt) (dispatchConsumer d) ([], false) evs) = run d (appended evs) := by
+  have := ReadLoop.foldl_feed_loop (Params.actual dflt) (timeout_branch_frees_only_empty dflt) d hs evs
+    (ReadLoop.St.init ([], false)) rfl (ReadLoop.fix_init d)
+  have h0 : toConn (ReadLoop.St.init (([], false) : List F × Bool)) = (Conn.init : Conn F) := rfl
+  rw [h0] at this
+  simpa [ReadLoop.run, run] using this
+
+/-- **readloop_segmentation_independent**: hence, by `segmentation_independent`, for every chunk list with read
+timeouts inserted anywhere the frames (and residue, failed flag) are those of the concatenation arriving in one read. -/
+theorem readloop_segmentation_independent {F : Type} (dflt : Int) (d : Bytes → Step F) (hs : Stable d) (evs : List Ev)
+    (hp : ∀ e ∈ evs, e.plain = true) :
+    toConn (ReadLoop.run (Params.actual dflt) (dispatchConsumer d) ([], false) evs) = run d [(readsOf evs).flatten] := by
+  rw [readloop_refines_dispatch dflt d hs evs, segmentation_independent d hs, ReadLoop.appended_plain evs hp]
+
+/-- a stream of valid frames followed by an incomplete one, read in any chunks with any stalls: exactly those frames,
+in order, once; exactly the incomplete frame stays buffered -/
+theorem readloop_valid_stream_delivered (dflt : Int) (d : Bytes → Step Bytes) (hs : Stable d) (fs : List Bytes) (t : Bytes)
+    (hv : ∀ f ∈ fs, d f = .frame f f.length) (ht : TailOk d t) (evs : List Ev) (hp : ∀ e ∈ evs, e.plain = true)
+    (hc : (readsOf evs).flatten = fs.flatten ++ t) :
+    toConn (ReadLoop.run (Params.actual dflt) (dispatchConsumer d) ([], false) evs) = { buf := t, out := fs, failed := false } := by
+  rw [readloop_segmentation_independent dflt d hs evs hp]
+  exact valid_stream_delivered d hs fs t hv ht _ (by simpa using hc)
+
+/-- outside the re-allocations covered above, `startReadLoop` / `doRead` / `onRead` change `c.readBuffer` only by the
+first allocation and by `ReadOnce` (regenerated list of uses) -/
+theorem read_path_vocabulary :
+    ReadLoop.mutatingUses MosnVerif.Gen.ReadLoopConn.readBufferUses = ReadLoop.expectedMutatingUses := by decide
+
+/-- the two further copies of the statement in netpoll mode (read-timeout timer callback, event-loop `onRead`) also fire
+only on an empty buffer, for every network and default size; and nothing else in pkg/network discards or consumes a
+connection's read buffer (regenerated list of such calls is empty).  Proof over the regenerated conditions only: the
+netpoll event loop is not driven by the harness. -/
+theorem netpoll_shrinks_free_only_empty (net : String) (dflt : Int) :
+    SafeShrinks { network := net, dflt := dflt, shrinks := MosnVerif.Gen.ReadLoopConn.netpollShrinks } := by
+  intro sh hsh alloc len cap h
+  simp only [MosnVerif.Gen.ReadLoopConn.netpollShrinks, List.mem_cons, List.not_mem_nil, or_false] at hsh
+  rcases hsh with rfl | rfl <;>
+    (simp only [MosnVerif.Gen.ReadLoopConn.netpollShrinkCond0, MosnVerif.Gen.ReadLoopConn.netpollShrinkCond1,
+      Bool.and_eq_true, decide_eq_true_eq] at h; omega)
+
+theorem no_stray_buffer_discard : MosnVerif.Gen.ReadLoopConn.strayBufferCalls = [] := by decide
+
+/-- the executable predicate `specReadLoop` (evaluated by the driver on the implementation's output of every `rl`
+case) holds of the model: a stream of valid frames plus an incomplete tail, read in any chunks with any stalls -/
+theorem spec_readloop_holds_on_model (dflt : Int) (d : Bytes → Step Bytes) (hs : Stable d) (fs : List Bytes) (t : Bytes)
+    (hv : ∀ f ∈ fs, d f = .frame f f.length) (ht : TailOk d t) (evs : List Ev) (hp : ∀ e ∈ evs, e.plain = true)
+    (hc : (readsOf evs).flatten = fs.flatten ++ t) :
+    let c := toConn (ReadLoop.run (Params.actual dflt) (dispatchConsumer d) ([], false) evs)
+    ReadLoopSpec.specReadLoop (fs.flatten ++ t) (fs.map List.length) ((readsOf evs).map List.length) c.out c.buf c.failed
+      = true := by
+  intro c
+  have hcv : c = { buf := t, out := fs, failed := false } := readloop_valid_stream_delivered dflt d hs fs t hv ht evs hp hc
+  have hsum : ((readsOf evs).map List.length).sum = (fs.flatten ++ t).length := by
+    rw [← hc, List.length_flatten]
+  simp [ReadLoopSpec.specReadLoop, hcv, hsum, specSeg, splitBy_flatten]
+
+-- non-vacuity and the negation witness.  `holdSmall`: a consumer that takes everything once 128 bytes are buffered and
+-- otherwise waits (a frame that is not complete yet).
+def holdSmall : Consumer Unit := ⟨fun k b => (k, if b.length ≥ 128 then [] else b)⟩
+def bigRead : Bytes := List.replicate 128 7
+def stalled : List Ev := [.read bigRead, .read [1, 2, 3], .timeout, .timeout, .read [4]]
+set_option maxRecDepth 8192
+example : ∀ e ∈ stalled, e.plain = true := by decide
+-- the current loop: the 128-byte read grew the buffer (128 -> 1024), the stall changes nothing
+example : (ReadLoop.run (Params.actual 128) holdSmall () stalled).buf = [1, 2, 3, 4] ∧
+    (ReadLoop.run (Params.actual 128) holdSmall () stalled).cap = 1024 := by decide
+example : (ReadLoop.run (Params.actual 128) holdSmall () [.read bigRead, .timeout]).cap = 128 := by decide
+/-- "free when small": re-allocate whenever the buffer holds at most the default size and has grown -/
+def freeWhenSmall : MosnVerif.Gen.ReadLoopConn.Shrink :=
+  ⟨fun net alloc len cap dflt => decide (net = "tcp") && alloc && decide (len ≤ dflt) && decide (cap > dflt), fun d => d⟩
+def mutant (dflt : Int) : Params := { network := "tcp", dflt := dflt, shrinks := [freeWhenSmall] }
+example : ¬ SafeShrinks (mutant 128) := by
+  intro h
+  have := h freeWhenSmall (by simp [mutant]) true 3 1024 (by decide)
+  omega
+-- the buffered head [1,2,3] of the waiting frame is discarded by the first timeout: bytes lost
+example : (ReadLoop.run (mutant 128) holdSmall () stalled).consumed ++ (ReadLoop.run (mutant 128) holdSmall () stalled).buf
+    = bigRead ++ [4] := by decide
+example : (ReadLoop.run (mutant 128) holdSmall () stalled).consumed ++ (ReadLoop.run (mutant 128) holdSmall () stalled).buf
+    ≠ (readsOf stalled).flatten := by decide
+-- ... and it needs the earlier growth: without the large read the capacity is still the default and nothing is lost
+example : (ReadLoop.run (mutant 128) holdSmall () [.read [1, 2, 3], .timeout, .read [4]]).buf = [1, 2, 3, 4] := by decide
+-- with frames: bolt request cut after 20 bytes behind a first read that filled the buffer
+example : (toConn (ReadLoop.run (Params.actual 64) (dispatchConsumer frameStep_bolt) ([], false)
+    [.read (boltReq ++ boltReq.take 29), .read (boltReq.drop 29 ++ boltReq.take 20), .timeout, .read (boltReq.drop 20)])).out
+    = [boltReq, boltReq, boltReq] := by decide
+example : (toConn (ReadLoop.run (mutant 64) (dispatchConsumer frameStep_bolt) ([], false)
+    [.read (boltReq ++ boltReq.take 29), .read (boltReq.drop 29 ++ boltReq.take 20), .timeout, .read (boltReq.drop 20)])).out
+    = [boltReq, boltReq] := by decide
 
 end MosnVerif.Props.C07
